@@ -15,9 +15,10 @@
 #define C07_BUF 8192
 /* z_stream cursor of a decompressor: output window inside the 8 KiB buffer, input window inside the caller's chunk.
  * Usable in loop invariants (locals drec, d of htp_gzip_decompressor_decompress). */
-/* the cursors are havocked by the loop contract and then only ASSUMED to be inside their windows: pointer_equals (which assigns in
- * assume context) keeps their points-to sets exact; a plain == leaves them pointing anywhere and the LZMA header memcpy from next_in
- * then ranges over every object of the program (12 M variables) */
+/* NOTE: the cursors are havocked by the loop contract and then only ASSUMED to be inside their windows, so inside the loop step their
+ * points-to sets are unknown.  __CPROVER_pointer_equals would fix that but is rejected in loop invariants ("not side-effect free").
+ * Consequence: nothing in the loop may dereference / havoc through next_in / next_out - the one memcpy from next_in is replaced by a
+ * call-site contract (contract_c07_memcpy) and the stubs' frames do not list the output bytes. */
 #define C07_OUT_OK(z) ((z)->stream.avail_out <= C07_BUF && (z)->stream.next_out == (z)->buffer + (C07_BUF - (z)->stream.avail_out))
 #define C07_IN_OK(z, dd) ((z)->stream.avail_in <= (dd)->len && (z)->stream.next_in == (unsigned char *) (dd)->data + ((dd)->len - (z)->stream.avail_in))
 #define C07_ZI_OK(z) ((z)->zlib_initialized >= 0 && (z)->zlib_initialized <= 4)
